@@ -539,7 +539,13 @@ def strip_positions(tree, mixed=False):
     return tree
 
 
-AST_MODES = {"ast": lambda t: astx.parse_expr(t), "ast-module": lambda t: ast.parse(t.strip()), "ast-no-positions": lambda t: strip_positions(astx.parse_expr(t)), "ast-mixed-positions": lambda t: strip_positions(astx.parse_expr(t), mixed=True)}
+def _built_by_hand(t):
+    from ..history import without_empty_keywords
+
+    return without_empty_keywords(astx.parse_expr(t))[0]
+
+
+AST_MODES = {"ast": lambda t: astx.parse_expr(t), "ast-calls-built-without-keywords-field": _built_by_hand, "ast-module": lambda t: ast.parse(t.strip()), "ast-no-positions": lambda t: strip_positions(astx.parse_expr(t)), "ast-mixed-positions": lambda t: strip_positions(astx.parse_expr(t), mixed=True)}
 
 LAYOUT_TEXTS = [
     "lambda e: {'pt  (GeV)': e.x,\n           'eta\tphi': e.y}",
@@ -732,7 +738,7 @@ def shard_main(ctx):
             ctx.count("expressions-on-other-untyped-streams")
         for opname in ("Select", "SelectMany", "Where"):
             judge(ctx, ds, opname, "string", text, tag, depth, lambda: getattr(ds, opname)(text))
-            amode = ("ast", "ast-module", "ast-no-positions", "ast-mixed-positions")[n % 4]
+            amode = ("ast", "ast-module", "ast-no-positions", "ast-mixed-positions", "ast-calls-built-without-keywords-field")[n % 5]
             judge(ctx, ds, opname, amode, text, tag, depth, lambda: getattr(ds, opname)(AST_MODES[amode](text)))
         if n % (40 if ctx.tier == "quick" else 12) == 0:
             callable_batch.append((t, tag, depth))
